@@ -264,6 +264,9 @@ def palK (cfg : PalCfg) (gb n : Nat) (hgb : GbOK cfg gb) : Container PCont where
     rw [(C12.C12_set_fuel hgb hinv hi hv' 0).2, h1]
     simp only [h3, List.map_set, Int.toNat_natCast]
 
+theorem C13_palK_abs (cfg : PalCfg) (gb n : Nat) (hgb : GbOK cfg gb) (c : PCont) :
+    (palK cfg gb n hgb).abs c = (abs n c).map Int.toNat := rfl
+
 /-- `(*Section).SetBlock` on the real container IS the interface-level `SetBlock` of stage 1: it succeeds, and
 counter and container afterwards are those of `Section.setBlock (palK …)` — so `C13_count`, `C13_count_no_wrap`
 hold for every history of real `SetBlock` calls (indices below 4096, ids in the registry range). -/
@@ -315,6 +318,38 @@ theorem C13_wire_roundtrip {gbS gbB : Nat} (hS : GbOK (blocksCfg gbS) gbS) (hB :
   simp only [List.getElem_map] at this
   obtain ⟨a, ⟨b1, b2⟩, ⟨c1, c2⟩⟩ := this
   exact ⟨a, b1, b2, c1, c2⟩
+
+/-- **`ReadFrom` establishes the representation invariant — and the exact counter — independently of what the
+destination held before.**  In `C13_wire_roundtrip` the destination `d` is constrained by `ChunkDst` only (number of
+sections, configuration and length of its containers): nothing is assumed about its palettes, its palette maps,
+its longs or how often it was read into or edited before (this is C12's `C12_wire_roundtrip`, whose destination is
+likewise unconstrained: the model's `Container.readFrom` installs the FRESH palette `cfg.create bits` before it
+reads; a reader that kept the previous palette object would not satisfy it).  Consequently every section of the
+chunk read is again a legal starting point for the counter theorems: if the sender's counters were exact, then
+after the read `Exact` holds for the real container (`palK`), so `C13_count` / `C13_count_no_wrap` apply to EVERY
+later history of `SetBlock` calls on the received chunk — `BlockCount` stays the number of non-air blocks and each
+call changes exactly the addressed cell (`C13_setBlock_refines`: the real `SetBlock` is the interface-level one) —
+whatever states the earlier contents of the destination contained. -/
+theorem C13_read_establishes_invariant {gbS gbB : Nat} (hS : GbOK (blocksCfg gbS) gbS) (hB : GbOK (biomesCfg gbB) gbB)
+    (c d : Chunk) (hc : ChunkDom gbS gbB c) (hd : ChunkDst gbS gbB c.secs.length d) (rest : Bytes) (s : Stream)
+    (hs : s.flat = (c.writeTo gbS gbB).1 ++ rest) (isAir : Nat → Bool)
+    (hexact : ∀ sec ∈ c.secs, Exact (palK (blocksCfg gbS) gbS 4096 hS) isAir ⟨sec.count, sec.states⟩) :
+    ∃ d' s', Chunk.readFrom gbS gbB d s = (Res.ok (d', (c.writeTo gbS gbB).1.length), s') ∧ s'.flat = rest ∧
+      ∀ (i : Nat) (h : i < d'.secs.length),
+        Exact (palK (blocksCfg gbS) gbS 4096 hS) isAir ⟨d'.secs[i].count, d'.secs[i].states⟩ := by
+  obtain ⟨d', s', h1, h2, _, h4, h5, _⟩ := C13_wire_roundtrip hS hB c d hc hd rest s hs
+  refine ⟨d', s', h1, h2, ?_⟩
+  intro i hi
+  have hi' : i < c.secs.length := by omega
+  obtain ⟨a, b1, b2, _, _⟩ := h5 i hi hi'
+  obtain ⟨_, e2⟩ := hexact c.secs[i] (List.getElem_mem hi')
+  refine ⟨b1, ?_⟩
+  have habs : (palK (blocksCfg gbS) gbS 4096 hS).abs d'.secs[i].states = (palK (blocksCfg gbS) gbS 4096 hS).abs c.secs[i].states := by
+    rw [C13_palK_abs, C13_palK_abs, b2]
+  have e2' : c.secs[i].count = BitVec.ofNat 16 (nonAir isAir ((palK (blocksCfg gbS) gbS 4096 hS).abs c.secs[i].states)) := e2
+  have goal : d'.secs[i].count = BitVec.ofNat 16 (nonAir isAir ((palK (blocksCfg gbS) gbS 4096 hS).abs d'.secs[i].states)) := by
+    rw [habs, a]; exact e2'
+  exact goal
 
 /-! ### C13_readFrom_total / fragInv / extStable (for C08 and C09) -/
 
